@@ -87,20 +87,21 @@ Definition ydocs_of (kids : list (node * yden)) : option (list yval) :=
                             end) (Some []) kids.
 Fixpoint ykeys_nodup (l : list bytes) : bool :=
   match l with [] => true | k :: t => negb (existsb (beq k) t) && ykeys_nodup t end.
-(* a mapping pair: the first child has field "key" and is a scalar, then the colon; after it comments and at most one
+(* a mapping pair: the first child (a flow_node / block_node) has field "key" and is a scalar, then the colon; after it comments and at most one
    child with field "value", the value; no other child carries one of the two fields *)
+Definition is_wrapper (n : node) : bool := kind_is yk_flow_node n || kind_is yk_block_node n.
 Definition neutral_tok (kd : node * yden) : bool :=
   match snd kd with YDTok => negb (beq (n_field (fst kd)) yf_key) && negb (beq (n_field (fst kd)) yf_value) | _ => false end.
 Fixpoint ypair_rest (rest : list (node * yden)) : option (option yval) :=
   match rest with
   | [] => Some None
-  | (n, YDVal v) :: t => if beq (n_field n) yf_value && forallb neutral_tok t then Some (Some v) else None
+  | (n, YDVal v) :: t => if beq (n_field n) yf_value && is_wrapper n && forallb neutral_tok t then Some (Some v) else None
   | kd :: t => if neutral_tok kd then ypair_rest t else None
   end.
 Definition ypair_of (kids : list (node * yden)) : yden :=
   match kids with
   | (kn, YDVal (YStr k)) :: (cn, YDTok) :: rest =>
-      if beq (n_field kn) yf_key && kind_is yk_colon cn && negb (beq (n_field cn) yf_key) && negb (beq (n_field cn) yf_value) then
+      if beq (n_field kn) yf_key && is_wrapper kn && kind_is yk_colon cn && negb (beq (n_field cn) yf_key) && negb (beq (n_field cn) yf_value) then
         match ypair_rest rest with
         | Some (Some v) => YDPair k v
         | Some None => YDPair k YNull
@@ -110,22 +111,24 @@ Definition ypair_of (kids : list (node * yden)) : yden :=
   | _ => YDBad
   end.
 
+(* tokens: punctuation, comments, escape sequences, the leaf of a plain scalar *)
+Definition ytokish (kind : bytes) : bool :=
+  existsb (beq kind) yaml_punct || beq kind yk_comment || beq kind yk_escape || existsb (beq kind) yaml_scalar_leaves.
 Definition all_ytok (kids : list (node * yden)) : bool := forallb (fun kd => match snd kd with YDTok => true | _ => false end) kids.
 (* the one child of a flow_node / block_node that carries the value: not itself such a wrapper, and when it is a scalar
    it spans the wrapper exactly *)
-Definition is_wrapper (n : node) : bool := kind_is yk_flow_node n || kind_is yk_block_node n.
 Fixpoint wrapped (sb eb : N) (kids : list (node * yden)) : option yval :=
   match kids with
   | [] => None
   | (c, YDVal v) :: t =>
-      if negb (is_wrapper c) && all_ytok t && match v with YStr _ => (n_sb c =? sb) && (n_eb c =? eb) | _ => true end
+      if negb (is_wrapper c) && negb (kind_is yk_block_sequence_item c) && all_ytok t && match v with YStr _ => (n_sb c =? sb) && (n_eb c =? eb) | _ => true end
       then Some v else None
   | (_, YDTok) :: t => wrapped sb eb t
   | _ => None
   end.
 Definition denote_ystep (content kind : bytes) (sb eb : N) (missing : bool) (kids : list (node * yden)) : yden :=
   if missing then YDBad
-  else if existsb (beq kind) yaml_punct || beq kind yk_comment || beq kind yk_escape || existsb (beq kind) yaml_scalar_leaves then
+  else if ytokish kind then
     match kids with [] => YDTok | _ => YDBad end
   else if beq kind yk_plain_scalar then
     match slice content sb eb with
